@@ -133,6 +133,34 @@ fn main() {
             ctx.compare(&tags.join(","), l, &moved, knot, &mut r);
         }
     }
+    // dense braids (full products (σ1…σ_{n-1})^k and perturbations): their simplification stacks cobordisms made of several
+    // strips joined by tubes, which sparse random words and the small table knots never produce
+    {
+        let mut dense: Vec<(usize, Vec<i32>)> = vec![(3, [1, 2].repeat(3)), (3, [1, 2].repeat(4)), (4, [1, 2, 3].repeat(2)), (3, [-1, -2].repeat(4)), (3, vec![1, 2, 1, 2, 1, 2, 1, -2])];
+        if thorough { dense.extend([(4, [1, 2, 3].repeat(3)), (3, [1, 2].repeat(5)), (4, vec![1, 2, 3, 1, 2, 3, -1, 2, 3])]); }
+        for _ in 0..(if thorough { 12 } else { 3 }) {
+            let n = 3 + r.below(2) as usize;
+            let len = 6 + r.below(3) as usize;
+            let w: Vec<i32> = (0..len).map(|k| { let g = 1 + (k % (n - 1)) as i32; if r.chance(1, 6) { -g } else { g } }).collect();
+            dense.push((n, w));
+        }
+        for (n, w) in dense {
+            let Some(l) = braid_closure(n, &w) else { continue };
+            let knot = l.is_knot();
+            ctx.s.count("base.dense-braid");
+            let (mut st, mut ww) = (n, w.clone());
+            let mut tags = vec![];
+            for _ in 0..(1 + r.below(3)) {
+                let (s2, w2, tag) = braid_move(&mut r, st, &ww);
+                if w2.len() > moved_max.max(w.len() + 1) { break }
+                st = s2; ww = w2; tags.push(tag);
+            }
+            let Some(m) = braid_closure(st, &ww) else { continue };
+            if m.is_knot() != knot { continue }
+            ctx.compare(&format!("dense braid {}:{:?} ~ {}:{:?} ({})", n, w, st, ww, tags.join(",")), &l, &m, knot, &mut r);
+            ctx.mirror(&l, knot);
+        }
+    }
     // braid-level moves
     for _ in 0..(if thorough { 150 } else { 50 }) {
         let strands = 2 + r.below(3) as usize;
